@@ -483,4 +483,58 @@ theorem sim_body {cfg : Cfg} {d d' : RState} {m : Mon} {o : Obs} (hs : Sim cfg d
               · simp at hl; subst hl; rfl
               · cases hl
 
+
+/-! ### a body that arrives at once -/
+
+/-- **A POST whose body arrives together with its headers is the special case**: for a POST with a session id that
+`lookupSession` lets through (and that does not carry `initialize`), the label `postBegin` is `postHead` followed by
+`postBody` — same state, same answer. -/
+theorem post_is_head_then_body {s : State} (hi : Inv s) (hst : s.cfg.stateless = false) {i : Nat} {u : User} {k : Kind} {e : Sess}
+    (hk : k.isInitialize = false) (hl : lookup s.tbl i u = .ok e) :
+    ∃ s1, step s (.postHead (some i) u) = some (s1, .forward none (!e.closing)) ∧
+      step s1 (.postBody i k) = step s (.postBegin (some i) u k) := by
+  have hn := inv_nodupIds hi
+  have hlk := lookup_ok hl
+  have hmem := (findSess_some hlk.1).1
+  have hpn := (good_inMap (hi.good e hmem) hlk.2.1).2
+  have hkH : KeepsId headF := fun x => (headF_fields x).2.1
+  refine ⟨{ s with tbl := s.tbl.map (lift i headF) }, step_postHead_ok hst hn hl, ?_⟩
+  rw [step_postBegin_ok hst hn hl k]
+  have hn1 : NodupIds (s.tbl.map (lift i headF)) := nodupIds_map (keepsId_lift hkH) hn
+  have hfe1 : findSess i (s.tbl.map (lift i headF)) = some (headF e) := by
+    rw [findSess_map_lift hkH, if_pos rfl, hlk.1]; rfl
+  have hbody : ∀ x : Sess, x.pending = none → tryF (bodyF (s.accepts k) k) (headF x) = startPost (s.accepts k) k x := by
+    intro x hx
+    rcases x with ⟨id, owner, refs, timer, closing, removed, inMap, pending, initialized, creating, busy, initBusy, posts, idleSince, closeErr, upl⟩
+    simp only [] at hx
+    subst hx
+    cases timer <;> simp [tryF, bodyF, headF, startPost, startTimer]
+  have hb : bodyF (s.accepts k) k (headF e) = some (startPost (s.accepts k) k e) := by
+    have := hbody e hpn
+    unfold tryF at this
+    cases hbf : bodyF (s.accepts k) k (headF e) with
+    | some y => rw [hbf] at this; simpa using this
+    | none =>
+      exfalso
+      have hf := headF_fields e
+      unfold bodyF at hbf
+      rw [if_neg (by rw [hf.2.2.2.2.2.2.2.2.2, hf.2.2.2.2.2.2.1, hpn]; simp)] at hbf
+      cases hbf
+  have hm := modify_eq_map hn1 hfe1 hb
+  have hacc : ({ s with tbl := s.tbl.map (lift i headF) } : State).accepts k = s.accepts k := rfl
+  simp only [step, hst, stepStateful, hk, Bool.false_eq_true, if_false, hfe1, hacc, hm]
+  have htbl : (s.tbl.map (lift i headF)).map (lift i (tryF (bodyF (s.accepts k) k))) = s.tbl.map (lift i (startPost (s.accepts k) k)) := by
+    rw [map_lift_comp hkH]
+    apply List.map_congr_left
+    intro x hx
+    unfold lift
+    by_cases hxi : x.id = i
+    · rw [if_pos hxi, if_pos hxi]
+      have : x = e := entry_unique hi hx hmem (by rw [hxi, (findSess_some hlk.1).2])
+      rw [this]; exact hbody e hpn
+    · rw [if_neg hxi, if_neg hxi]
+  rw [htbl]
+  have hcl : (headF e).closing = e.closing := (headF_fields e).2.2.2.1
+  simp [postResp, hk, hcl, State.accepts, State.openFails]
+
 end Sessions
